@@ -137,6 +137,83 @@ Section Proofs.
     intro H. injection H as <-. eapply charge_inr; eauto.
   Qed.
 
+  Lemma enter_inl c c1 : enter lim c = inl c1 ->
+    k c1 = k c /\ r c1 = r c /\ depth c1 = depth c + 1 /\ comp_left c1 = comp_left c /\ depth c + 1 <= l_depth lim.
+  Proof.
+    unfold enter. destruct (l_depth lim <? depth c + 1) eqn:E; [discriminate|].
+    intro H. injection H as <-. apply Z.ltb_ge in E. simpl. auto.
+  Qed.
+
+  (* the calls of a statement are balanced: the depth (and the continuation, the variables) after them is what it
+     was before; they only consume budget *)
+  Lemma eval_aux_inl a : forall c c', 0 <= comp_left c -> eval_aux pr lim a c = inl c' ->
+    k c' = k c /\ r c' = r c /\ depth c' = depth c /\ comp_left c' <= comp_left c /\ 0 <= comp_left c'.
+  Proof.
+    destruct Hm as (M1 & M2 & M3 & M4 & M5 & M6).
+    induction a as [| rest IH | rest IH | n inner IHi rest IHr]; intros c c' H0 H; simpl in H.
+    - injection H as <-. repeat split; lia.
+    - apply IH; assumption.
+    - unfold bind_cf in H. destruct (native pr lim c) as [c1|f] eqn:E; [|discriminate].
+      apply native_inl in E. destruct E as (K1 & R1 & D1 & C1 & L1).
+      destruct (IH c1 c' ltac:(lia) H) as (A & B & C & D & E). repeat split; try congruence; lia.
+    - unfold bind_cf in H.
+      destruct (charge c KindInv (c_inv pr)) as [c1|f] eqn:E1; [|discriminate].
+      apply charge_inl in E1. destruct E1 as (K1 & R1 & D1 & _ & C1 & L1).
+      destruct (enter lim c1) as [c2|f] eqn:E2; [|discriminate].
+      apply enter_inl in E2. destruct E2 as (K2 & R2 & D2 & C2 & _).
+      destruct (charge c2 KindStmt (c_stmt pr * Z.max 0 n)) as [c3|f] eqn:E3; [|discriminate].
+      apply charge_inl in E3. destruct E3 as (K3 & R3 & D3 & _ & C3 & L3).
+      assert (P : 0 <= c_stmt pr * Z.max 0 n) by (apply Z.mul_nonneg_nonneg; lia).
+      destruct (eval_aux pr lim inner c3) as [c4|f] eqn:E4; [|discriminate].
+      destruct (IHi c3 c4 ltac:(lia) E4) as (K4 & R4 & D4 & C4 & P4).
+      destruct (IHr (with_depth c4 (depth c4 - 1)) c' ltac:(simpl; lia) H) as (K5 & R5 & D5 & C5 & P5).
+      simpl in *. repeat split; try congruence; lia.
+  Qed.
+
+  Lemma eval_aux_frame a : forall c c', eval_aux pr lim a c = inl c' ->
+    k c' = k c /\ r c' = r c /\ depth c' = depth c.
+  Proof.
+    induction a as [| rest IH | rest IH | n inner IHi rest IHr]; intros c c' H; simpl in H.
+    - injection H as <-. auto.
+    - apply IH; assumption.
+    - unfold bind_cf in H. destruct (native pr lim c) as [c1|f] eqn:E; [|discriminate].
+      apply native_inl in E. destruct E as (K1 & R1 & D1 & _).
+      destruct (IH c1 c' H) as (A & B & C). repeat split; congruence.
+    - unfold bind_cf in H.
+      destruct (charge c KindInv (c_inv pr)) as [c1|f] eqn:E1; [|discriminate].
+      apply charge_inl in E1. destruct E1 as (K1 & R1 & D1 & _).
+      destruct (enter lim c1) as [c2|f] eqn:E2; [|discriminate].
+      apply enter_inl in E2. destruct E2 as (K2 & R2 & D2 & _).
+      destruct (charge c2 KindStmt (c_stmt pr * Z.max 0 n)) as [c3|f] eqn:E3; [|discriminate].
+      apply charge_inl in E3. destruct E3 as (K3 & R3 & D3 & _).
+      destruct (eval_aux pr lim inner c3) as [c4|f] eqn:E4; [|discriminate].
+      destruct (IHi c3 c4 E4) as (K4 & R4 & D4).
+      destruct (IHr (with_depth c4 (depth c4 - 1)) c' H) as (K5 & R5 & D5).
+      simpl in *. repeat split; try congruence; lia.
+  Qed.
+
+  Lemma eval_aux_inr a : forall c f, eval_aux pr lim a c = inr f ->
+    f = FLimit LimitComputation \/ f = FLimit LimitDepth.
+  Proof.
+    induction a as [| rest IH | rest IH | n inner IHi rest IHr]; intros c f H; simpl in H.
+    - discriminate.
+    - eapply IH; eauto.
+    - unfold bind_cf in H. destruct (native pr lim c) as [c1|f1] eqn:E.
+      + eapply IH; eauto.
+      + injection H as <-. eapply native_inr; eauto.
+    - unfold bind_cf in H.
+      destruct (charge c KindInv (c_inv pr)) as [c1|f1] eqn:E1;
+        [|injection H as <-; left; eapply charge_inr; eauto].
+      destruct (enter lim c1) as [c2|f2] eqn:E2.
+      + destruct (charge c2 KindStmt (c_stmt pr * Z.max 0 n)) as [c3|f3] eqn:E3;
+          [|injection H as <-; left; eapply charge_inr; eauto].
+        destruct (eval_aux pr lim inner c3) as [c4|f4] eqn:E4.
+        * eapply IHr; eauto.
+        * injection H as <-. eapply IHi; eauto.
+      + injection H as <-. unfold enter in E2. destruct (l_depth lim <? depth c1 + 1); [|discriminate].
+        injection E2 as <-. auto.
+  Qed.
+
   (* every step that does not end the run strictly decreases the measure *)
   Lemma step_decreases c c' :
     0 <= comp_left c -> step pr lim funs c = inl c' ->
@@ -180,6 +257,9 @@ Section Proofs.
         destruct (charge_mem c3 false (Z.max 0 (2 * get (r c2) s))) as [c4|f4] eqn:E4; [|discriminate].
         apply charge_mem_inl in E4. destruct E4 as (K4 & R4 & D4 & C4).
         injection H as <-. simpl. split; lia.
+      + destruct (eval_aux pr lim a c1) as [c2|f2] eqn:E2; [|discriminate].
+        destruct (eval_aux_inl a c1 c2 H1 E2) as (K2 & R2 & D2 & C2 & P2).
+        injection H as <-. simpl. split; lia.
     - (* next loop test *)
       unfold bind_cf in H. destruct (charge c KindStmt (c_looptest pr)) as [c1|f] eqn:E1; [|discriminate].
       apply charge_inl in E1. destruct E1 as (K1 & R1 & D1 & Me1 & C1 & L1).
@@ -216,6 +296,8 @@ Section Proofs.
             [|intro H; injection H as <-; apply charge_inr in E3; subst; auto].
           destruct (charge_mem c3 false (Z.max 0 (2 * get (r c2) s))) as [c4|f4] eqn:E4; [discriminate|].
           intro H. injection H as <-. apply charge_mem_inr in E4. subst. auto.
+        * destruct (eval_aux pr lim a c1) as [c2|f2] eqn:E2; [discriminate|].
+          intro H. injection H as <-. apply eval_aux_inr in E2. destruct E2; subst; auto 6.
       + destruct (charge c KindStmt (c_looptest pr)) as [c1|f1] eqn:E1;
           [|intro H; injection H as <-; apply charge_inr in E1; subst; auto].
         intro H. apply loop_test_inr in H. subst. auto.
@@ -283,6 +365,9 @@ Section Proofs.
         apply charge_inl in E3. destruct E3 as (K3 & R3 & D3 & _).
         destruct (charge_mem c3 false (Z.max 0 (2 * get (r c2) s))) as [c4|f4] eqn:E4; [|discriminate].
         apply charge_mem_inl in E4. destruct E4 as (K4 & R4 & D4 & _).
+        injection H as <-. simpl. lia.
+      + destruct (eval_aux pr lim a c1) as [c2|f2] eqn:E2; [|discriminate].
+        destruct (eval_aux_frame a c1 c2 E2) as (K2 & R2 & D2).
         injection H as <-. simpl. lia.
     - destruct (charge c KindStmt (c_looptest pr)) as [c1|f] eqn:E1; [|discriminate].
       apply charge_inl in E1. destruct E1 as (K1 & R1 & D1 & _).
